@@ -68,6 +68,14 @@ VARIANTS = [
     dict(name='benign-prefix-helper-early-return-removed', expect='silent', edits=[
         dict(file=FF, old="    prefix_from_prefix = None\n    order_from_prefix = 0\n    if not prefix:\n        return prefix_from_prefix, order_from_prefix\n",
              new="    if not prefix:\n        return None, 0\n")]),
+    dict(name='macros-forgotten-at-every-top-level-section', expect='fire', key='PROV-macros|persist', edits=[
+        dict(file=PU, old="        self.section = section\n", new="        self.section = section\n        if len(section) == 1:\n            self.macros = {}\n")]),
+    dict(name='macro-substitution-after-dispatch-lookup-skipped-for-header-like', expect='fire', key='PROV-macros|substitute-before-dispatch', edits=[
+        dict(file=PU, old="        line = _substitute_macros(line, self.macros)\n        if tuple(self.section) not in self.METH_DICT:", new="        if '$' in line and self.section[-1] != 'atoms':\n            line = _substitute_macros(line, self.macros)\n        if tuple(self.section) not in self.METH_DICT:")]),
+    dict(name='undefined-macro-kept', expect='fire', key='PROV-macros|substitution', edits=[
+        dict(file=PU, old="        macro_value = macros[macro_name]", new="        macro_value = macros.get(macro_name, '$' + macro_name)")]),
+    dict(name='macro-definition-columns-swapped', expect='fire', key='PROV-macros|definition', edits=[
+        dict(file=PU, old="    macro_name = tokens.popleft()\n    macro_value = tokens.popleft()", new="    macro_value = tokens.popleft()\n    macro_name = tokens.popleft()")]),
     # benign
     dict(name='benign-reset-instead-of-guard', expect='silent', edits=[
         dict(file=FF, old="            if not links or links[-1] is not self.current_link:\n                links.append(self.current_link)",
